@@ -510,6 +510,12 @@ class Interp(object):
                 self.n_paths += 1
                 done.append(path)
                 return
+            if blk.get("noreturn"):
+                # assertion failure / abort: the function does not return
+                path.end = "abort"
+                self.n_paths += 1
+                done.append(path)
+                return
             if b == fn.cfg["exit"]:
                 path.end = "exit"
                 self.n_paths += 1
@@ -700,8 +706,8 @@ class Interp(object):
                         subpaths = sub.run(callee, env2, dict(p.pc), depth + 1, init_ne=dict(p.ne))
                         self.n_paths = sub.n_paths
                         for sp in subpaths:
-                            if sp.end == "loop":
-                                continue     # its continuations are covered by the other paths
+                            if sp.end in ("loop", "abort"):
+                                continue     # covered by the other paths / does not return
                             if sp.end == "budget":
                                 bp = p.clone()
                                 bp.end = "stop"
